@@ -275,6 +275,8 @@ class C10(core.Property):
             return self.gen_policy_follow(rng, tier)
         if m == 2 and (i // 6) % 2 == 0:
             return self.gen_adaptive_feedback(rng, tier)
+        if m == 1 and (i // 6) % 4 == 0:
+            return self.gen_drl(rng, tier)
         return self.gen_policy_exact(rng, tier)
 
     # --- exact grid
@@ -592,7 +594,12 @@ class C10(core.Property):
         id; off the grid that is the float-floor question of fixes/C10-fixed-window-float-floor, not asked
         here).  Half of the cases keep requests apart by more than a read + write round trip (sequential:
         the per-window limit is judged), the others overlap them (lost updates are by design; exactly-once,
-        order and counters are judged)."""
+        order and counters are judged).  A third of the cases are closed-loop ("inject": "chain"): every
+        request is issued when the previous one has completed (forwarded or dropped), at max(its nominal
+        time, now) — so requests never overlap in event order although, with a zero-latency store (half of
+        these), whole bursts alternating between the instances share one timestamp; nominal times then
+        repeat (dt = 0) most of the time.  "Sequential" for the judge is completion-before-start in event
+        order, not distinct timestamps."""
         W = rng.choice([8, 64, 100, 512])                # window, grid steps
         unit = G
         if self.DRL_OFFGRID and rng.random() < 0.4:
@@ -603,12 +610,19 @@ class C10(core.Property):
         k = rng.choice([1, 1, 2, 3])
         rl, wl = rng.choice([0, 1, 1, 2, 5]), rng.choice([0, 1, 1, 3, 5])
         sequential = rng.random() < 0.5
+        chain = rng.random() < 0.45
+        if chain:
+            k = rng.choice([2, 2, 2, 3, 1])
+            if rng.random() < 0.6:
+                rl = wl = 0
         n = rng.choice([2, 3, 5, 8, 12, 20])
         t = rng.choice([0, 0, 1, W, W - 1])
         reqs = []
         for _ in range(n):
             r = rng.random()
-            if r < 0.3:
+            if chain and r < 0.75:
+                dt = 0                                                           # same-timestamp burst
+            elif r < 0.3:
                 dt = 0
             elif r < 0.5:
                 dt = rng.choice([1, 2])
@@ -616,14 +630,18 @@ class C10(core.Property):
                 dt = max(0, (t // W + 1) * W - t + rng.choice([-1, 0, 0, 1]))     # next window boundary
             else:
                 dt = rng.choice([W // 2, W, 3 * W])
-            if sequential:
+            if sequential and not chain:
                 dt = max(dt, rl + wl + 1)
             t += dt
-            reqs.append([rng.randrange(k), t * unit])
+            # closed loop: alternate between the instances (round robin) or pick at random
+            reqs.append([(len(reqs) % k) if chain and k > 1 and rng.random() < 0.8 else rng.randrange(k), t * unit])
         case = {"family": "drl", "window": W, "limit": N, "ninst": k, "rlat": rl, "wlat": wl, "reqs": reqs,
                 "end": (t + rng.choice([0, rl, rl + wl, 10 * W])) * unit, "policy": {"kind": "drl"}}
         if unit != G:
             case["unit"] = unit
+        if chain:
+            case["inject"] = "chain"
+            case["end"] += n * (rl + wl + 1) * unit
         return case
 
     # ------------------------------------------------------------------ implementation
@@ -654,6 +672,16 @@ class C10(core.Property):
         lims = [DistributedRateLimiter(f"lim{i}", sink, store, global_limit=case["limit"],
                                        window_size=case["window"] * U / NS) for i in range(case["ninst"])]
         budget = {"n": 0}
+        chain = case.get("inject") == "chain"
+        pending = {"k": 0}
+
+        def next_request(now_ns):
+            k = pending["k"]
+            if k >= len(case["reqs"]):
+                return []
+            pending["k"] = k + 1
+            i, t = case["reqs"][k]
+            return [Event(time=Instant(max(t, now_ns)), event_type="req", target=lims[i], context={"rid": k})]
 
         def letter(a, b):
             if b.local_rejections > a.local_rejections:
@@ -689,6 +717,9 @@ class C10(core.Property):
                         log.append(f"{kind} {i} {rid} {lim.now.nanoseconds} {letter(before, after)}")
                         for e in stop.value or []:
                             emitted.append(f"fwd {i} {e.context.get('rid')} {e.time.nanoseconds}")
+                        if chain:
+                            # closed loop: this request is complete (forwarded or dropped) — issue the next one
+                            return list(stop.value or []) + next_request(lim.now.nanoseconds)
                         return stop.value
                     after = lim.stats
                     kind = "arr" if first else "res"
@@ -701,8 +732,12 @@ class C10(core.Property):
         for i, lim in enumerate(lims):
             tap(i, lim)
         sim = Simulation(entities=[*lims, sink, store], end_time=Instant(case["end"] + 1))
-        for rid, (i, t) in enumerate(case["reqs"]):
-            sim.schedule(Event(time=Instant(t), event_type="req", target=lims[i], context={"rid": rid}))
+        if chain:
+            for e in next_request(0):
+                sim.schedule(e)
+        else:
+            for rid, (i, t) in enumerate(case["reqs"]):
+                sim.schedule(Event(time=Instant(t), event_type="req", target=lims[i], context={"rid": rid}))
         sim.run()
         tail = []
         for i, lim in enumerate(lims):
